@@ -671,6 +671,12 @@ def spec_call(self, n, env):
             fc = self.eng.find_contract(recv.s.cls, f.attr)
             if fc is not None:
                 return self.spec_call_pure(fc, recv, [self.ev(a, env) for a in n.args], env)
+            d = self.eng.field_decl(recv.s.cls, f.attr)
+            if d is not None and isinstance(d[1], RefS):
+                # a field holding a callable object with a pure __call__ contract: obj.field(args)
+                cfc = self.eng.find_contract(d[1].cls, "__call__")
+                if cfc is not None:
+                    return self.spec_call_pure(cfc, self.hread(env, recv, f.attr), [self.ev(a, env) for a in n.args], env)
         raise E.StaleContract("unsupported call in contract expression: .%s" % f.attr)
     if not isinstance(f, ast.Name):
         raise E.StaleContract("unsupported call in contract expression")
